@@ -31,6 +31,7 @@ inductive Blk (plain : Bool) : (LSt → LSt) → Prop
   | subRemove (o sid) : Blk plain (subRemove o sid)
   | subRemoveReg (o) : Blk plain (fun s => subRemove o (s.reg o 5) s)
   | lastChkReg (o) : Blk plain (fun s => lastChkSection (s.reg o 5) s)
+  | subStored (o) : Blk plain (subStored o)
   | setResp (o g) : Blk plain (setResp o g)
   | gcPick (o) : Blk plain (gcPick o)
   | subPick (o) : Blk plain (subPick o)
@@ -142,13 +143,14 @@ theorem compile_blocks (p : Bool) (op : Op) (hp : op.isPlainUpd = true → p = t
     · rw [List.map_flatten, List.map_replicate] at h
       have := mem_blocksOf_replicate n _ f h
       simp [attendIter, tsect, TI.erase, blocksOf] at this
-      rcases this with rfl | rfl | rfl | rfl | rfl | rfl
+      rcases this with rfl | rfl | rfl | rfl | rfl | rfl | rfl
       · exact .subPick _
       · exact .whenReg _ _ _ _ (.consHasReg _)
       · exact .whenReg _ _ _ _ (.whenReg _ _ _ _ (.markRemove _))
       · exact .whenReg _ _ _ _ (.whenReg _ _ _ _ (.dbAll _))
-      · exact .whenReg _ _ _ _ (.whenReg _ _ _ _ (.whenReg _ _ _ _ (.lastChkReg _)))
-      · exact .whenReg _ _ _ _ (.whenReg _ _ _ _ (.whenReg _ _ _ _ (.callback _)))
+      · exact .whenReg _ _ _ _ (.whenReg _ _ _ _ (.whenReg _ _ _ _ (.subStored _)))
+      · exact .whenReg _ _ _ _ (.whenReg _ _ _ _ (.whenReg _ _ _ _ (.whenReg _ _ _ _ (.lastChkReg _))))
+      · exact .whenReg _ _ _ _ (.whenReg _ _ _ _ (.whenReg _ _ _ _ (.whenReg _ _ _ _ (.callback _))))
     · rw [List.map_flatten, List.map_replicate] at h
       have := mem_blocksOf_replicate n _ f h
       simp [attendRemove, tsect, TI.erase, blocksOf] at this
